@@ -144,19 +144,51 @@ func sceneQuery(o ReqOpts) {
 		_, err = k.Request(gctx, &types.QueryRequestRequest{RequestId: other[:20]})
 		chk("C17", err != nil, "malformed-request-id-rejected")
 	case 6: // pending requests of a binding
+		// another consumer's context also has a request pending with provider 0: two pending requests of one binding
+		id2 := vf.Bytes("ctx2", 40)
+		vf.Assume(string(id2) != string(id))
+		c2 := vf.Addr("consumer2", 20)
+		fee2 := vf.Amount("fee2")
+		expH2 := vf.Int64("expH2")
+		vf.Assume(vf.All(fee2.IsPositive(), s.H >= 2, expH2 >= s.H, expH2 < maxH))
+		k.SetRequestContext(ctx, id2, types.NewRequestContext(Svc, []sdk.AccAddress{s.Provs[0]}, c2, InputOK, coins(fee2), 1, false, true, 5, -1, 1, 1, 0, 1, types.BATCHRUNNING, types.RUNNING, 1, ""))
+		rid2 := types.GenerateRequestID(id2, 1, s.H-1, 0)
+		k.SetCompactRequest(ctx, rid2, types.NewCompactRequest(id2, 1, s.Provs[0], coins(fee2), s.H-1, expH2))
+		k.AddActiveRequest(ctx, Svc, s.Provs[0], expH2, rid2)
 		for i := 0; i < s.N; i++ {
 			r, err := k.Requests(gctx, &types.QueryRequestsRequest{ServiceName: Svc, Provider: s.Provs[i]})
 			wantN := 0
 			if i < s.M && s.Active[i] {
 				wantN = 1
 			}
+			if i == 0 {
+				wantN++
+			}
 			chk("C17 C18", vf.And(err == nil, r != nil && len(r.Requests) == wantN), "pending-requests-of-binding-exactly")
-			if err == nil && r != nil && len(r.Requests) == 1 && wantN == 1 {
-				chk("C17 C18", vf.And(string(r.Requests[0].Id) == string(s.ReqIDs[i]), r.Requests[0].Provider.Equals(s.Provs[i])), "pending-request-is-the-stored-one")
+			if err == nil && r != nil && len(r.Requests) == wantN {
+				nOwn, nOther := 0, 0
+				for _, q := range r.Requests {
+					// every listed request carries its own id: the id names the context, batch and consumer of that request
+					chk("C17 C18", vf.All(len(q.Id) == types.RequestIDLen, string(q.Id[:types.ContextIDLen]) == string(q.RequestContextId), q.Provider.Equals(s.Provs[i])), "listed-pending-request-carries-its-own-id")
+					if i < s.M && string(q.Id) == string(s.ReqIDs[i]) {
+						nOwn++
+						chk("C17", q.Consumer.Equals(s.Consumer), "pending-request-is-the-stored-one")
+					}
+					if string(q.Id) == string(rid2) {
+						nOther++
+						chk("C17", vf.And(q.Consumer.Equals(c2), q.ServiceFee.AmountOf(Denom).Equal(fee2)), "pending-request-of-the-other-context-is-the-stored-one")
+					}
+				}
+				chk("C17 C18", nOwn+nOther == wantN, "pending-requests-are-the-stored-ones")
 			}
 			bz, lerr := lq(types.QueryRequests, types.QueryRequestsParams{ServiceName: Svc, Provider: s.Provs[i]})
 			var lr []types.Request
 			chk("C17", vf.All(lerr == nil, vf.FromAminoJSON(bz, &lr) == nil, len(lr) == wantN), "legacy-pending-requests-same")
+			if lerr == nil && len(lr) == wantN && err == nil && r != nil && len(r.Requests) == wantN {
+				for j := range lr {
+					chk("C17", string(lr[j].Id) == string(r.Requests[j].Id), "legacy-pending-requests-same-ids-in-the-same-order")
+				}
+			}
 		}
 		r, err := k.Requests(gctx, &types.QueryRequestsRequest{ServiceName: Svc + "x", Provider: s.Provs[0]})
 		chk("C17 C18", vf.And(err == nil, r != nil && len(r.Requests) == 0), "other-service-has-no-pending-requests")
